@@ -83,7 +83,7 @@ def d5_unclosed_two_instant_run(pid, case, f):
 @signature
 def d10_directed_interactions_dedup(pid, case, f):
     c, d = _base(f["clause"]), f["detail"]
-    if c not in ("C02.inter", "C02.inter_iter", "C02.f_inter", "C02.inter_once"):
+    if c not in ("C02.inter", "C02.inter_iter", "C02.f_inter", "C02.inter_once", "C02.inter_tuple"):
         return False
     if not case.get("cls") and d.get("on") not in ("to_directed",):
         return False
@@ -108,7 +108,7 @@ def d12_to_directed_single_orientation(pid, case, f):
 @signature
 def d14_undirected_loop_degree(pid, case, f):
     c, d = _base(f["clause"]), f["detail"]
-    if c not in ("C02.deg", "C02.deg_iter", "C02.f_deg", "C02.deg1", "C02.deg_once", "C02.size", "C02.nint", "C02.f_nint", "C02.density", "C02.deghist"):
+    if c not in ("C02.deg", "C02.deg_iter", "C02.f_deg", "C02.deg1", "C02.deg_once", "C02.deg_set", "C02.size", "C02.nint", "C02.f_nint", "C02.density", "C02.deghist"):
         return False
     undirected = (not case.get("cls")) if d.get("on") in (None, "slice") else d.get("on", "").startswith("to_undirected")
     if not undirected or not _has_loop_op(case):
